@@ -3,6 +3,7 @@ parse tables + grammar, and renders them for the harness (drv line format) and f
 terms of LR/Driver.v `tables`).  Trusted only to read literals; validated by running the compiled
 parsers against the model on the translated tables (cgbatch tier)."""
 import re
+import vlib
 
 
 class TranslateError(Exception):
@@ -217,7 +218,7 @@ def parse_module(txt):
 
 
 def parse_rs(path):
-    src = open(path).read()
+    src = vlib.norm_prefix(open(path).read())
     mods = split_modules(src)
     out = {}
     for name, txt in mods:
